@@ -201,7 +201,9 @@ func (r *Run) execRestore(t *Task, idx int, tx *TxPlan) {
 		r.snapViolation("restore-panicked", "restore of a good snapshot panicked: %v", pv)
 	}
 	// reported snapshot id == the id returned when the snapshot was taken
-	got, err := r.db.GetSnapshotId()
+	var got *string
+	var err error
+	r.s.Atomic(func() { got, err = r.db.GetSnapshotId() })
 	if err != nil {
 		r.snapViolation("snapshot-id-error", "GetSnapshotId failed after restore: %v", err)
 	}
@@ -261,7 +263,7 @@ func checkRestoredDump(rec *snapRec, now *Dump) *Violation {
 		Detail: fmt.Sprintf("database after restore differs from the state at snapshot time (- at snapshot, + after restore):\n   %s", strings.Join(diff, "\n   "))}
 }
 
-func (r *Run) execTimeline(t *Task) {
+func (r *Run) execTimeline(t *Task, modeName string) {
 	t.Yield("timeline", NeedWriter)
 	for round := 0; round < 2; round++ {
 		calls := 0
@@ -269,9 +271,22 @@ func (r *Run) execTimeline(t *Task) {
 		fresh := fmt.Sprintf("timeline-%s-%d", t.Name, r.tlCounter)
 		r.tlCounter++
 		r.mu.Unlock()
-		got, err := r.db.GetTimelineId(boltz.TimelineModeDefault, func() (string, error) {
-			calls++
-			return fresh, nil
+		mode := boltz.TimelineModeDefault
+		if round == 0 {
+			switch modeName {
+			case "initIfEmpty":
+				mode = boltz.TimelineModeInitIfEmpty
+			case "forceReset":
+				mode = boltz.TimelineModeForceReset
+			}
+		}
+		var got string
+		var err error
+		r.s.Atomic(func() {
+			got, err = r.db.GetTimelineId(mode, func() (string, error) {
+				calls++
+				return fresh, nil
+			})
 		})
 		if err != nil {
 			r.snapViolation("timeline-error", "GetTimelineId failed: %v", err)
@@ -282,14 +297,15 @@ func (r *Run) execTimeline(t *Task) {
 		meta := r.meta
 		r.mu.Unlock()
 		wantCalls, want := 0, strOr(meta.TimelineId)
-		if meta.Reset {
+		fresh1 := meta.Reset || mode == boltz.TimelineModeForceReset || (mode == boltz.TimelineModeInitIfEmpty && meta.TimelineId == nil)
+		if fresh1 {
 			wantCalls, want = 1, fresh
 		}
 		if calls != wantCalls || got != want {
-			r.snapViolation("timeline-id", "GetTimelineId (reset marker %v, stored id %q): id function called %d time(s), returned %q; expected %d call(s) and %q",
-				meta.Reset, strOr(meta.TimelineId), calls, got, wantCalls, want)
+			r.snapViolation("timeline-id", "GetTimelineId(%s) (reset marker %v, stored id %q): id function called %d time(s), returned %q; expected %d call(s) and %q",
+				mode, meta.Reset, strOr(meta.TimelineId), calls, got, wantCalls, want)
 		}
-		if meta.Reset {
+		if fresh1 {
 			r.probe("timeline_reset_consumed")
 			r.mu.Lock()
 			r.meta.Reset = false
